@@ -29,6 +29,7 @@ def run_one(sid, tier):
         for pid in meta.get("checks", [meta["property"]]):
             t0 = time.time()
             env = dict(os.environ)
+            env["VERIF_EVIDENCE_DIR"] = os.path.join(VERIF, "target", "seeded-evidence")
             r = sh("cd %s && ./check %s %s" % (VERIF, pid, tier), env=env)
             lines = [l for l in r.stdout.splitlines() if l.startswith(("VIOLATION", "KNOWN-FINDING"))]
             sigs = [l.strip()[3:] for l in r.stderr.splitlines() if l.startswith("  -> ")]
